@@ -542,6 +542,11 @@ class C29(Prop):
                 obs["sf"]["why"] = _why(e1)
             if "fail" in obs["ref"]:
                 obs["ref"]["why"] = _why(e2)
+                if "SchemaParseException" in e2 and "is already in use" in e2:
+                    # cwltool's own crash on anonymous record schemas used twice (avro name collision): the reference
+                    # gives no verdict on this document, exactly like a reference that did not finish
+                    obs["ref"]["timeout"] = True
+                    obs["ref"]["internal"] = "avro-name-collision"
             return obs
         finally:
             shutil.rmtree(d, ignore_errors=True)
